@@ -8,6 +8,7 @@ from .util import (Source, print_dump, get_marked_atribute, split_pkg,
                    marked, unmark, SOURCE_MARK)
 from .evaluator import EvalCtx
 from .nast import extract_scope
+from .project import request
 
 log = logging.getLogger('supp.assistant')
 
@@ -21,6 +22,7 @@ def list_packages(project, root, filename):
     return sorted(r for r in project.list_packages(root))
 
 
+@request
 def assist(project, source, position, filename=None, debug=False):
     source = Source(source, filename, position)
     ctx = EvalCtx(project)
@@ -99,6 +101,7 @@ def _loc_of(name):
         return None
 
 
+@request
 def location(project, source, position, filename=None, debug=False):
     source = Source(source, filename, position)
 
